@@ -122,7 +122,7 @@ theorem entryCheck_inBounds (v : Vmsa) (n : Nat) (e : Entry) (h : entryCheck v n
       simp only [hresv, if_true] at h
       split at h <;> try cases h
       split at h <;> try cases h
-      rw [if_neg (by subst hresv; decide)]
+      rw [if_neg (by subst hresv; decide), if_neg (by subst hresv; decide)]
       intro w hw
       simp only [List.mem_cons, List.mem_nil_iff, or_false] at hw
       subst hw; simp only; omega
@@ -150,6 +150,7 @@ theorem entryCheck_inBounds (v : Vmsa) (n : Nat) (e : Entry) (h : entryCheck v n
             split at h <;> try cases h
             split at h <;> try cases h
             split at h <;> try cases h
+            rw [if_neg (by subst h64; decide)]
             intro w hw
             simp only [List.mem_cons, List.mem_nil_iff, or_false] at hw
             subst hw; simp only; omega
@@ -157,11 +158,17 @@ theorem entryCheck_inBounds (v : Vmsa) (n : Nat) (e : Entry) (h : entryCheck v n
             by_cases hz : kind = "zero"
             · simp only [hz, if_true] at h
               split at h <;> try cases h
+              rw [if_neg (by subst hz; decide)]
               intro w hw
               simp only [List.mem_cons, List.mem_nil_iff, or_false] at hw
               subst hw; simp only; omega
             · simp only [hz, if_false] at h
-              cases h
+              by_cases hm : kind = "mbz"
+              · rw [if_pos hm]
+                intro w hw
+                cases hw
+              · simp only [hm, if_false] at h
+                cases h
 
 /-- every statement's checks pass on a buffer of `n` bytes -/
 def entriesOk (v : Vmsa) (n : Nat) (L : List Entry) : Prop := ∀ e ∈ L, entryCheck v n e = .ok ()
@@ -189,6 +196,132 @@ theorem putVmsa_spec_layout (v : Vmsa) (h : entriesOk v 4096 Spec.SnpLaunch.vmsa
   unfold putVmsa
   rw [if_neg (by rw [hl]; decide), putEntries_ok v _ _ (by rw [hl]; exact h), applyWrites_zeros, symPage_spec]
   rfl
+
+/-! ### strictness: acceptance implies every check passed -/
+
+theorem putEntries_ok_inv (v : Vmsa) (L : List Entry) (buf out : Bytes) (h : putEntries v L buf = .ok out) :
+    entriesOk v buf.length L := by
+  induction L generalizing buf with
+  | nil => intro e he; cases he
+  | cons e es ih =>
+    rw [putEntries] at h
+    unfold putEntry at h
+    cases hc : entryCheck v buf.length e with
+    | err c => rw [hc] at h; cases h
+    | panic p => rw [hc] at h; cases h
+    | ok u =>
+      rw [hc] at h
+      simp only at h
+      have hlen := applyWrites_length (expand e) v buf (entryCheck_inBounds v _ e hc)
+      have := ih _ h
+      rw [hlen] at this
+      intro e' he'
+      rcases List.mem_cons.mp he' with rfl | he'
+      · exact hc
+      · exact this e' he'
+
+/-- what a passed check says about the value, kind by kind -/
+def EntryStrict (v : Vmsa) (e : Entry) : Prop :=
+  (e.1 = "seg" → v.f (e.2.2.2 ++ ".Selector") < 2 ^ 16 ∧ v.f (e.2.2.2 ++ ".Attrib") < 2 ^ 16) ∧
+  (e.1 = "byte8" → v.f e.2.2.2 < 2 ^ 8) ∧
+  (e.1 = "resv64" → v.f e.2.2.2 = 0) ∧
+  (e.1 = "resv" ∨ e.1 = "mbz" →
+    (v.r e.2.2.2).length = 0 ∨ ((v.r e.2.2.2).length = e.2.2.1 - e.2.1 ∧ allZero (v.r e.2.2.2) = true))
+
+theorem entryCheck_strict (v : Vmsa) (n : Nat) (e : Entry) (h : entryCheck v n e = .ok ()) : EntryStrict v e := by
+  obtain ⟨kind, lo, hi, name⟩ := e
+  unfold entryCheck at h
+  unfold EntryStrict
+  simp only at h ⊢
+  by_cases hseg : kind = "seg"
+  · subst hseg
+    simp only [if_true] at h
+    split at h <;> try cases h
+    split at h <;> try cases h
+    split at h <;> try cases h
+    split at h <;> try cases h
+    refine ⟨fun _ => ⟨by omega, by omega⟩, fun hh => absurd hh (by decide), fun hh => absurd hh (by decide), fun hh => ?_⟩
+    rcases hh with hh | hh <;> exact absurd hh (by decide)
+  · simp only [hseg, if_false] at h
+    by_cases hresv : kind = "resv"
+    · subst hresv
+      simp only [if_true] at h
+      split at h <;> try cases h
+      rename_i hc
+      refine ⟨fun hh => absurd hh (by decide), fun hh => absurd hh (by decide), fun hh => absurd hh (by decide), fun _ => ?_⟩
+      by_cases h0 : (v.r name).length = 0
+      · exact Or.inl h0
+      · right
+        simp only [not_and, not_or, Bool.not_eq_true', ne_eq] at hc
+        have := hc h0
+        refine ⟨by omega, ?_⟩
+        cases ha : allZero (v.r name)
+        · exact absurd ha this.2
+        · rfl
+    · simp only [hresv, if_false] at h
+      by_cases hb : kind = "byte8"
+      · subst hb
+        simp only [if_true] at h
+        split at h <;> try cases h
+        refine ⟨fun hh => absurd hh (by decide), fun _ => by omega, fun hh => absurd hh (by decide), fun hh => ?_⟩
+        rcases hh with hh | hh <;> exact absurd hh (by decide)
+      · simp only [hb, if_false] at h
+        by_cases hle : kind = "le"
+        · subst hle
+          refine ⟨fun hh => absurd hh (by decide), fun hh => absurd hh (by decide), fun hh => absurd hh (by decide), fun hh => ?_⟩
+          rcases hh with hh | hh <;> exact absurd hh (by decide)
+        · simp only [hle, if_false] at h
+          by_cases h64 : kind = "resv64"
+          · subst h64
+            simp only [if_true] at h
+            split at h <;> try cases h
+            split at h <;> try cases h
+            rename_i hz
+            refine ⟨fun hh => absurd hh (by decide), fun hh => absurd hh (by decide), fun _ => by omega, fun hh => ?_⟩
+            rcases hh with hh | hh <;> exact absurd hh (by decide)
+          · simp only [h64, if_false] at h
+            by_cases hz : kind = "zero"
+            · subst hz
+              refine ⟨fun hh => absurd hh (by decide), fun hh => absurd hh (by decide), fun hh => absurd hh (by decide), fun hh => ?_⟩
+              rcases hh with hh | hh <;> exact absurd hh (by decide)
+            · simp only [hz, if_false] at h
+              by_cases hm : kind = "mbz"
+              · subst hm
+                simp only [if_true] at h
+                split at h <;> try cases h
+                rename_i hc
+                refine ⟨fun hh => absurd hh (by decide), fun hh => absurd hh (by decide), fun hh => absurd hh (by decide), fun _ => ?_⟩
+                by_cases h0 : (v.r name).length = 0
+                · exact Or.inl h0
+                · right
+                  simp only [not_and, not_or, Bool.not_eq_true', ne_eq] at hc
+                  have := hc h0
+                  refine ⟨by omega, ?_⟩
+                  cases ha : allZero (v.r name)
+                  · exact absurd ha this.2
+                  · rfl
+              · simp only [hm, if_false] at h
+                cases h
+
+/-- go: PutVmsa on a fresh 4 KiB page accepts a value exactly when every statement's check passes, and then
+    writes the APM-layout bytes -/
+theorem putVmsa_spec_iff (v : Vmsa) (page : Bytes) :
+    putVmsa Spec.SnpLaunch.vmsaLayout Spec.SnpLaunch.sizeofVmsa v (zeros 4096) = .ok page ↔
+      entriesOk v 4096 Spec.SnpLaunch.vmsaLayout ∧ page = Spec.SnpLaunch.vmsaBytes v.f := by
+  have hl : (zeros 4096).length = 4096 := List.length_replicate
+  constructor
+  · intro h
+    have hok : entriesOk v 4096 Spec.SnpLaunch.vmsaLayout := by
+      unfold putVmsa at h
+      rw [if_neg (by rw [hl]; decide)] at h
+      have := putEntries_ok_inv v _ _ _ h
+      rwa [hl] at this
+    refine ⟨hok, ?_⟩
+    rw [putVmsa_spec_layout v hok] at h
+    injection h with h
+    exact h.symm
+  · rintro ⟨hok, rfl⟩
+    exact putVmsa_spec_layout v hok
 
 /-! ### the reset states measured by LaunchDigest -/
 
@@ -237,6 +370,7 @@ theorem entryCheck_set (v : Vmsa) (name : String) (x n : Nat) (e : Entry)
           by_cases h64 : kind = "resv64"
           · simp only [h64, if_true, set_f_ne _ _ _ _ (h3 (Or.inr h64))]
           · simp only [h64, if_false]
+            rfl
 
 def notChecked (name : String) (L : List Entry) : Bool :=
   L.all fun e =>
